@@ -249,12 +249,15 @@ def finish(mod, prop, tier, seed, total: Res, t0, extra_cov=None):
             except Exception:
                 reproduced = False
             if not reproduced:
+                # observed once on the real code but not when the case is
+                # re-executed alone: the outcome depends on what ran earlier in
+                # the same process (state kept by the library across calls) or
+                # on unowned nondeterminism.  Reported, and flagged as such.
                 print(
-                    f"INTERNAL: violation {check}/{kind} did not reproduce on replay",
+                    f"note: violation {check}/{kind} did not reproduce when its case was "
+                    "re-executed in isolation (depends on earlier executions in the process?)",
                     file=sys.stderr,
                 )
-                print(json.dumps(jsonable(rec), indent=1)[:4000], file=sys.stderr)
-                return 2
         new_violations += 1
         rec_out = dict(rec)
         rec_out.update(
